@@ -127,7 +127,16 @@ func main() {
 	repo := flag.String("repo", "/repo", "repository root")
 	out := flag.String("out", "Generated.v", "Coq output")
 	jout := flag.String("json", "", "JSON output")
+	fnsOut := flag.String("fns", "", "Coq output for the translated pure functions")
+	ktypesOut := flag.String("ktypes", "", "Coq output for the protobuf struct records of x/stream")
+	keeperOut := flag.String("keeper", "", "Coq output for the translated x/stream keeper and message server")
 	flag.Parse()
+	if *ktypesOut != "" && *keeperOut != "" {
+		writeKeeper(*repo, *ktypesOut, *keeperOut)
+	}
+	if *fnsOut != "" {
+		writeFns(*repo, *fnsOut)
+	}
 	fa := facts{Prefixes: map[string]map[string][]int{}, MaccPerms: map[string][]string{}, TypeSwitches: map[string][]string{},
 		GetSigners: map[string]string{}, Consts: map[string]int64{}, SizeLimits: map[string][]int64{}, Graph: map[string][]string{},
 		Effects: map[string][]string{}, WallClockArgs: map[string][]string{}, Resolved: map[string][]string{}, NodeFile: map[string]string{}}
@@ -697,4 +706,32 @@ func writeCoq(path string, fa *facts) {
 	}
 	sb.WriteString("Definition callgraph : list (string * list string) :=\n  [" + strings.Join(gr, ";\n   ") + "].\n")
 	os.WriteFile(path, []byte(sb.String()), 0o644)
+}
+
+// writeFns translates the pure stream functions into Gallina (coq/GeneratedFns.v)
+func writeFns(repo, out string) {
+	f := parseFile(filepath.Join(repo, "x", "stream", "types", "utils.go"))
+	var sb strings.Builder
+	sb.WriteString("(* GENERATED by /verif/translator (gofn.go) from /repo/x/stream/types/utils.go on every check. Do not edit.\n")
+	sb.WriteString("   Each Go function is rendered in the Gallina subset described in translator/gofn.go; the cosmos-sdk calls are the\n")
+	sb.WriteString("   functions of lib/GoSdk.v.  proofs/GeneratedFnsEq.v proves them equal to the hand-written model functions. *)\n")
+	sb.WriteString("From MC Require Import lib.Prelude lib.GoSdk.\nOpen Scope Z_scope.\n\n")
+	for _, want := range []string{"CalculateDuration", "CalculateAmountToClaim", "CalculateValidatorFee"} {
+		found := false
+		for _, d := range f.Decls {
+			if fd, ok := d.(*ast.FuncDecl); ok && fd.Name.Name == want {
+				found = true
+				def, errs := translateFunc(fd)
+				if len(errs) > 0 {
+					sb.WriteString("(* NOT TRANSLATED " + want + ": " + strings.Join(errs, "; ") + " *)\n\n")
+				} else {
+					sb.WriteString(def + "\n")
+				}
+			}
+		}
+		if !found {
+			sb.WriteString("(* NOT FOUND " + want + " *)\n\n")
+		}
+	}
+	os.WriteFile(out, []byte(sb.String()), 0o644)
 }
